@@ -41,6 +41,8 @@ type Result struct {
 	Sym       map[string]int32 `json:"sym"`
 	Format    string           `json:"format"`
 	Digest    string           `json:"digest"`
+	TreeBefore string          `json:"tree_before"`
+	TreeAfter  string          `json:"tree_after"`
 	Micros    int64            `json:"us"`
 	// filled by the engine
 	Died     bool   `json:"died,omitempty"`     // worker process ended while executing (os.Exit, fatal error)
